@@ -134,11 +134,20 @@ Print Assumptions c20_effective_cap.
    (Tunnel), MaxBlocksPerHost = 1, node 0 asks for a Workload and then a Tunnel address; both succeed and the
    node holds two affine blocks. *)
 Theorem c20_block_cap_refuted :
-  let '(s, rs) := run_ops cap_cfg init_store cap_ops in
+  let '(s, rs) := run_ops (cap_cfg false) init_store cap_ops in
   rs = [RIPs [(167772416, 30%nat)] ENone; RIPs [(167772672, 30%nat)] ENone] /\
-  count_affs (snap_of (st_ents s)) 0 (fun _ => true) = 2%nat /\ g_maxblocks cap_cfg = 1%nat.
+  count_affs (snap_of (st_ents s)) 0 (fun _ => true) = 2%nat /\ g_maxblocks (cap_cfg false) = 1%nat.
 Proof. exact cap_literal_refuted. Qed.
 Print Assumptions c20_block_cap_refuted.
+
+(* On the variant g_capfix = true (fixes/C20-count-all-affine-blocks.patch: the limit counts every block that stays
+   affine to the host) the same history ends with the block-limit error and one affine block. *)
+Theorem c20_block_cap_fixed_witness :
+  let '(s, rs) := run_ops (cap_cfg true) init_store cap_ops in
+  rs = [RIPs [(167772416, 30%nat)] ENone; RIPs [] EBlockLimit] /\
+  count_affs (snap_of (st_ents s)) 0 (fun _ => true) = 1%nat.
+Proof. exact cap_fixed_witness. Qed.
+Print Assumptions c20_block_cap_fixed_witness.
 
 (* A fact about the code, not a defect: when the request names pools, the node selector is ignored (determinePools:
    "for backwards compatibility").  Node 0 has no labels, the pool requires has(k0): without requested pools the
@@ -150,9 +159,9 @@ Proof. exact requested_bypass. Qed.
 Print Assumptions c20_requested_pools_bypass_selectors.
 
 (* the hypotheses are satisfiable: cap_cfg is in the domain *)
-Example c20_domain_inhabited : cfg_ok cap_cfg.
+Example c20_domain_inhabited : forall fx, cfg_ok (cap_cfg fx).
 Proof.
-  split.
+  intros fx. split.
   - intros p p' a [<-|[<-|[]]] [<-|[<-|[]]] A B; auto; exfalso;
       unfold in_pool, p_size in A, B; simpl in A, B;
       apply andb_true_iff in A; apply andb_true_iff in B; destruct A as [A1 A2], B as [B1 B2];
